@@ -2,11 +2,18 @@
 (* Behaviours for C43, enumerated by TLC: for every fork round f in 0..4 or    *)
 (* none, optionally re-recorded at g, optionally preceded by a non-owner       *)
 (* attempt, probe BOTH names (f2 is never recorded) at every round 0..4.       *)
+(* Two forks (f1, f3) recorded at different rounds and looked up one after the *)
+(* other by one transaction, through a warm and through a cold state cache.    *)
 EXTENDS Integers, Sequences, TLC, Json
 VARIABLE g
 R == 0..4
-Rec(n, r, by) == [t |-> "rec", name |-> n, r |-> r, by |-> by]
-Probes == [i \in 1..10 |-> [t |-> "probe", name |-> IF i <= 5 THEN "f1" ELSE "f2", r |-> (i - 1) % 5, by |-> ""]]
+Rec(n, r, by) == [t |-> "rec", name |-> n, r |-> r, by |-> by, ctx |-> ""]
+Probes == [i \in 1..10 |-> [t |-> "probe", name |-> IF i <= 5 THEN "f1" ELSE "f2", r |-> (i - 1) % 5, by |-> "", ctx |-> "new"]]
+\* a node restart: the next block runs on an empty state cache
+Cold == [t |-> "cold", name |-> "", r |-> 0, by |-> "", ctx |-> ""]
+\* two forks looked up one after the other (twice) by ONE transaction, at every round 0..4
+Pr(n, r, c) == [t |-> "probe", name |-> n, r |-> r, by |-> "", ctx |-> c]
+Probes2 == [i \in 1..20 |-> Pr(IF i % 2 = 1 THEN "f1" ELSE "f3", (i - 1) \div 4, IF i % 4 = 1 THEN "new" ELSE "same")]
 P(x) == PrintT(<<"BEHAVIOUR", ToJson([k |-> "act", ops |-> x])>>)
 Printed ==
   /\ P(Probes)                                                               \* never recorded
@@ -15,6 +22,12 @@ Printed ==
   /\ \A f \in R : \A h \in R : f # h => P(<<Rec("f1", f, "owner"), Rec("f1", h, "owner")>> \o Probes)   \* re-recorded
   /\ \A f \in R : \A h \in R : f # h => P(<<Rec("f1", f, "owner"), Rec("f1", h, "other")>> \o Probes)   \* non-owner overwrite attempt
   /\ \A f \in R : P(<<Rec("f1", f, "owner")>> \o Probes \o <<Rec("f1", (f + 2) % 5, "owner")>> \o Probes) \* moved while probing
+  \* two forks at different rounds: warm cache (entries written by add_hardfork), after a restart (cold
+  \* cache), recorded in separate blocks with a restart after each, and only the second one recorded
+  /\ \A f \in R : \A h \in R : f # h => P(<<Rec("f1", f, "owner"), Rec("f3", h, "owner")>> \o Probes2)
+  /\ \A f \in R : \A h \in R : f # h => P(<<Rec("f1", f, "owner"), Rec("f3", h, "owner"), Cold>> \o Probes2 \o Probes2)
+  /\ \A f \in R : \A h \in R : f # h => P(<<Rec("f3", h, "owner"), Cold, Rec("f1", f, "owner"), Cold>> \o Probes2)
+  /\ \A h \in R : P(<<Rec("f3", h, "owner"), Cold>> \o Probes2)
 GInit == g = IF Printed THEN 0 ELSE 1
 GNext == UNCHANGED g
 GSpec == GInit /\ [][GNext]_g
